@@ -8,18 +8,24 @@ def part(test, q_procs, q_checks, t_procs, t_checks, **kw):
 
 CHECKS = {
     "C01": {"level": "exploration", "scheduled": True,
-            "parts": [part("TestC01", 8, 40, 16, 2000)]},
+            "parts": [part("TestC01", 8, 150, 16, 2000)]},
     "C11": {"level": "exploration",
             "parts": [part("TestC11Enum", 1, 1, 1, 1), part("TestC11Small", 2, 3000, 6, 200000), part("TestC11Big", 8, 10, 16, 400)]},
     "C08": {"level": "exploration", "scheduled": True,
-            "parts": [part("TestC08", 8, 30, 16, 1500)]},
+            "parts": [part("TestC08", 8, 150, 16, 1500)]},
     "C17": {"level": "exploration",
-            "parts": [part("TestC17", 8, 40, 16, 2000)]},
+            "parts": [part("TestC17", 8, 200, 16, 2000)]},
     "C07": {"level": "exploration", "scheduled": True,
-            "parts": [part("TestC07", 8, 30, 16, 1500)]},
+            "parts": [part("TestC07", 8, 150, 16, 1500)]},
     "C02": {"level": "exploration", "scheduled": True,
-            "parts": [part("TestC02", 6, 40, 12, 2000), part("TestC02", 2, 40, 4, 2000, env={"BOWL_DEBUG_BROKEN_RENAME": "1"})]},
+            "parts": [part("TestC02", 6, 150, 12, 2000), part("TestC02", 2, 150, 4, 2000, env={"BOWL_DEBUG_BROKEN_RENAME": "1"})]},
+    "C13": {"level": "fault_enumeration",
+            "parts": [part("TestC13", 8, 60, 16, 1500)]},
+    "C14": {"level": "exploration",
+            "parts": [part("TestC14", 8, 150, 16, 6000)]},
+    "C03": {"level": "fault_enumeration",
+            "parts": [part("TestC03", 8, 150, 16, 1500)]},
     "C04": {"level": "exploration", "scheduled": True,
-            "parts": [part("TestC04", 8, 30, 16, 1500)]},
+            "parts": [part("TestC04", 8, 100, 16, 1500)]},
 }
 NOT_APPLICABLE = {}
